@@ -19,6 +19,17 @@ def main(argv):
     ap.add_argument("--selftest", action="store_true")
     a = ap.parse_args(argv)
     pid = a.prop.upper()
+    if pid == "SELFTEST":
+        from . import selftest
+        import puan, puan.logic.plog, puan.modules.configurator
+        ctx = core.Ctx("SELFTEST", a.tier, 0)
+        ctx.known_findings = []
+        try:
+            return selftest.run(ctx)
+        except core.Machinery as ex:
+            print("MACHINERY", str(ex)[:6000]); return 2
+        finally:
+            ctx.close()
     if pid not in props.PROPS:
         print("unknown property", pid); return 2
     seed = int(os.environ.get("VERIF_SEED", "0") or 0)
